@@ -12,9 +12,11 @@ TRUST = ('Trusted: clang 14 front end and the LibTooling extractor; class-hierar
 CLAIMED = {
     'C18': ('other',
             'Static, all-paths: whole-program exception-escape analysis (no exception type escapes main / Interpret::interp), '
-            'discarded-result, single status writer, literal-format and exit-caller rules over the type-checked AST of all built units. '
-            'Decides these structural clauses of the property, not memory safety or promptness.',
-            'static analysis: interprocedural exception-escape fixpoint + AST call-site rules (LibTooling facts)',
+            'discarded-result, single status writer, literal-format and exit-caller rules over the type-checked AST of all built units; front-end crash clauses: local vectors '
+            'read with a literal index / front / back are provably long enough on every path (size lower bounds, assert not counted), options that decide what is allocated or '
+            'which class is built at solver construction are frozen afterwards, pipe mode reports input ending inside a command, parser text is tested for null before it is echoed. '
+            'Decides these structural clauses of the property, not memory safety in general or promptness.',
+            'static analysis: interprocedural exception-escape fixpoint + AST call-site rules + path-sensitive size-lower-bound walk (LibTooling facts)',
             'library throw table; allocation failure excluded'),
     'C04': ('other',
             'Static, all-paths: scope push/pop pairing of every stacked member (MainSolver, Preprocessor), lockstep typestate between the '
